@@ -26,6 +26,11 @@ pub enum Leaf {
 
 /// Builds a document with `depth` collections in total (an empty innermost collection counts).
 pub fn nested(f: F, word: &[Step], leaf: Leaf, depth: usize, yaml_block: bool) -> Option<Vec<u8>> {
+	nested_w(f, word, leaf, depth, yaml_block, 0)
+}
+
+/// `width`: MessagePack header width used for the nesting collections (0 = fix, 1 = 16-bit, 2 = 32-bit).
+pub fn nested_w(f: F, word: &[Step], leaf: Leaf, depth: usize, yaml_block: bool, width: u8) -> Option<Vec<u8>> {
 	let wraps = if leaf == Leaf::Scalar { depth } else { depth.checked_sub(1)? };
 	let step = |i: usize| word[i % word.len()];
 	let mut out: Vec<u8> = vec![];
@@ -96,10 +101,18 @@ pub fn nested(f: F, word: &[Step], leaf: Leaf, depth: usize, yaml_block: bool) -
 		}
 		F::Msgpack => {
 			for i in 0..wraps {
+				let (arr, map): (&[u8], &[u8]) = match width {
+					0 => (&[0x91], &[0x81]),
+					1 => (&[0xdc, 0, 1], &[0xde, 0, 1]),
+					_ => (&[0xdd, 0, 0, 0, 1], &[0xdf, 0, 0, 0, 1]),
+				};
 				match step(i) {
-					Step::Arr => out.push(0x91),
-					Step::MapVal => out.extend_from_slice(&[0x81, 0xa1, b'k']),
-					Step::MapKey => out.push(0x81),
+					Step::Arr => out.extend_from_slice(arr),
+					Step::MapVal => {
+						out.extend_from_slice(map);
+						out.extend_from_slice(&[0xa1, b'k']);
+					}
+					Step::MapKey => out.extend_from_slice(map),
 				}
 			}
 			out.push(match leaf {
@@ -174,6 +187,8 @@ struct Shape {
 	word: Vec<Step>,
 	leaf: Leaf,
 	block: bool,
+	/// MessagePack header width of the nesting collections
+	width: u8,
 }
 
 fn nominal_limit(f: F) -> usize {
@@ -190,9 +205,13 @@ pub fn run(ctx: &Ctx) -> CheckOutput {
 	for src in F::ALL {
 		for w in words(if thorough { 3 } else { 2 }, src == F::Msgpack || src == F::Yaml) {
 			for leaf in [Leaf::Scalar, Leaf::EmptyArr, Leaf::EmptyMap] {
-				shapes.push(Shape { src, word: w.clone(), leaf, block: false });
+				shapes.push(Shape { src, word: w.clone(), leaf, block: false, width: 0 });
+				if src == F::Msgpack && leaf == Leaf::Scalar {
+					shapes.push(Shape { src, word: w.clone(), leaf, block: false, width: 1 });
+					shapes.push(Shape { src, word: w.clone(), leaf, block: false, width: 2 });
+				}
 				if src == F::Yaml && leaf == Leaf::Scalar && !w.contains(&Step::MapKey) {
-					shapes.push(Shape { src, word: w.clone(), leaf, block: true });
+					shapes.push(Shape { src, word: w.clone(), leaf, block: true, width: 0 });
 				}
 			}
 		}
@@ -208,9 +227,9 @@ pub fn run(ctx: &Ctx) -> CheckOutput {
 			let mut seen_reject: Option<usize> = None;
 			let mut last_accept: Option<usize> = None;
 			for &d in &depths {
-				let Some(input) = nested(sh.src, &sh.word, sh.leaf, d, sh.block) else { continue };
-				let case = |what: &str| json!({"kind": "depth", "src": sh.src.name(), "word": word_name(&sh.word), "leaf": format!("{:?}", sh.leaf), "block": sh.block, "depth": d, "to": to.name(), "what": what});
-				let head = format!("{} shape {}*{:?}{} depth {d} -> {}", sh.src.name(), word_name(&sh.word), sh.leaf, if sh.block { " (block)" } else { "" }, to.name());
+				let Some(input) = nested_w(sh.src, &sh.word, sh.leaf, d, sh.block, sh.width) else { continue };
+				let case = |what: &str| json!({"kind": "depth", "src": sh.src.name(), "word": word_name(&sh.word), "leaf": format!("{:?}", sh.leaf), "block": sh.block, "width": sh.width, "depth": d, "to": to.name(), "what": what});
+				let head = format!("{} shape {}*{:?}{}{} depth {d} -> {}", sh.src.name(), word_name(&sh.word), sh.leaf, if sh.block { " (block)" } else { "" }, ["", " (16-bit headers)", " (32-bit headers)"][sh.width as usize], to.name());
 				let s = run_mode(&input, Some(sh.src), to, Mode::Slice);
 				let r = run_mode(&input, Some(sh.src), to, Mode::Reader3);
 				t.evaluations += 2;
@@ -331,7 +350,7 @@ pub fn run(ctx: &Ctx) -> CheckOutput {
 	let dir = w.path().to_path_buf();
 	let tb = par_fold(&bjobs, Tally::default, |t, idx, &(si, d, to, release, via_stdin)| {
 		let sh = &shapes[si];
-		let Some(input) = nested(sh.src, &sh.word, sh.leaf, d, sh.block) else { return };
+		let Some(input) = nested_w(sh.src, &sh.word, sh.leaf, d, sh.block, sh.width) else { return };
 		let name = format!("in-{idx}");
 		let tf = format!("-t{}", to.letter());
 		let ff = format!("-f{}", sh.src.letter());
@@ -351,8 +370,8 @@ pub fn run(ctx: &Ctx) -> CheckOutput {
 		t.count(if release { "binary:release" } else { "binary:debug" });
 		t.count(if via_stdin { "binary:stdin(reader)" } else { "binary:file(mmap)" });
 		t.nontrivial(fnv(&[&si.to_le_bytes(), &d.to_le_bytes(), to.name().as_bytes(), &[u8::from(release), u8::from(via_stdin)]]));
-		let head = format!("{} binary, {} shape {}*{:?}{} depth {d} -> {} via {}", if release { "release" } else { "debug" }, sh.src.name(), word_name(&sh.word), sh.leaf, if sh.block { " (block)" } else { "" }, to.name(), if via_stdin { "stdin" } else { "file" });
-		let case = json!({"kind": "binary-depth", "src": sh.src.name(), "word": word_name(&sh.word), "leaf": format!("{:?}", sh.leaf), "block": sh.block, "depth": d, "to": to.name(), "release": release, "stdin": via_stdin});
+		let head = format!("{} binary, {} shape {}*{:?}{}{} depth {d} -> {} via {}", if release { "release" } else { "debug" }, sh.src.name(), word_name(&sh.word), sh.leaf, if sh.block { " (block)" } else { "" }, ["", " (16-bit headers)", " (32-bit headers)"][sh.width as usize], to.name(), if via_stdin { "stdin" } else { "file" });
+		let case = json!({"kind": "binary-depth", "src": sh.src.name(), "word": word_name(&sh.word), "leaf": format!("{:?}", sh.leaf), "block": sh.block, "width": sh.width, "depth": d, "to": to.name(), "release": release, "stdin": via_stdin});
 		match o.exit {
 			Exit::Code(0) | Exit::Code(1) => {
 				if d > nominal_limit(sh.src) + 1 && o.exit == Exit::Code(0) {
@@ -372,7 +391,7 @@ pub fn run(ctx: &Ctx) -> CheckOutput {
 	CheckOutput {
 		level: "exploration",
 		tally,
-		rule: format!("shapes: every nesting word of period <= {} over {{array, map-in-value-position, (MessagePack, YAML) collection-in-key-position}} x innermost in {{scalar, empty array, empty map}}, YAML in flow and block style; in-process, {} around each format's limit (MessagePack 1024, JSON 128, YAML 128, TOML 80): for all 4 targets the verdict must be monotone in depth, equal for slice and reader, equal with detection (when detected as that format); MessagePack: exactly 1023 collections around a scalar translate and 1024 do not, in both modes, and the slice pre-pass (hook msgpack_value_size) agrees with the harness's own decoder. Through the debug and release binaries on their default main-thread stack, file (mmap) and stdin (reader): limit-1, limit, limit+1 and far depths {:?}: exit status 0 or 1 only, never a signal, and no acceptance far beyond the limit.", if thorough { 3 } else { 2 }, if thorough { "every depth from 1 to limit+76" } else { "every depth in 1..6 and limit-10..limit+10" }, far),
+		rule: format!("shapes: every nesting word of period <= {} over {{array, map-in-value-position, (MessagePack, YAML) collection-in-key-position}} x innermost in {{scalar, empty array, empty map}}, YAML in flow and block style, MessagePack with fix / 16-bit / 32-bit collection headers; in-process, {} around each format's limit (MessagePack 1024, JSON 128, YAML 128, TOML 80): for all 4 targets the verdict must be monotone in depth, equal for slice and reader, equal with detection (when detected as that format); MessagePack: exactly 1023 collections around a scalar translate and 1024 do not, in both modes, and the slice pre-pass (hook msgpack_value_size) agrees with the harness's own decoder. Through the debug and release binaries on their default main-thread stack, file (mmap) and stdin (reader): limit-1, limit, limit+1 and far depths {:?}: exit status 0 or 1 only, never a signal, and no acceptance far beyond the limit.", if thorough { 3 } else { 2 }, if thorough { "every depth from 1 to limit+76" } else { "every depth in 1..6 and limit-10..limit+10" }, far),
 		exhaustive: true,
 		bounds: json!({"word_period": if thorough { 3 } else { 2 }, "far_depths": far}),
 		assumptions: vec!["depth counts collections (an empty innermost collection counts, a scalar does not); 'random' shapes are represented by all periodic words up to the period bound".into()],
@@ -391,7 +410,7 @@ pub fn replay(case: &Value) -> Option<String> {
 		_ => Leaf::EmptyMap,
 	};
 	let d = case["depth"].as_u64().unwrap() as usize;
-	let input = nested(src, &word, leaf, d, case["block"].as_bool().unwrap_or(false))?;
+	let input = nested_w(src, &word, leaf, d, case["block"].as_bool().unwrap_or(false), case["width"].as_u64().unwrap_or(0) as u8)?;
 	if case["kind"] == "binary-depth" {
 		proc::assert_bins();
 		let w = WorkDir::new("c18-replay");
